@@ -123,6 +123,55 @@ def deOp (ws : List String) : Option String := do
       | .error f => failStr f
     pure s!"ok {dumpMsg m} re={re}"
 
+def szAnnounce : Announce :=
+  { origin := ⟨1, 2⟩, utcOffset := 37, priority1 := 128, quality := ⟨248, .unknown, 0x4e5d⟩, priority2 := 127,
+    identity := 0x0102030405060708, stepsRemoved := 3, timeSource := .named 0xa0 }
+
+def szManagement : Management :=
+  { target := ⟨0x0102030405060708, 9⟩, startingHops := 1, hops := 2, action := 0 }
+
+/-- body with the fixed field values of the harness's `sz_body` -/
+def szBody (ty : Nat) : Option Body :=
+  let ts : Timestamp := ⟨1, 2⟩
+  let port : PortIdentity := ⟨0x0102030405060708, 9⟩
+  if ty = 0 then some (.sync ts) else if ty = 2 then some (.pDelayReq ts)
+  else if ty = 3 then some (.pDelayResp ts port) else if ty = 8 then some (.followUp ts)
+  else if ty = 11 then some (.announce szAnnounce)
+  else if ty = 13 then some (.management szManagement)
+  else none
+
+def szHeader (seq : Nat) : Header :=
+  { sdoId := 0, major := 2, minor := 1, domain := 0, alternateMaster := false, twoStep := false, unicast := false,
+    profile1 := false, profile2 := false, leap61 := false, leap59 := false, utcOffsetValid := false,
+    ptpTimescale := false, timeTraceable := false, freqTraceable := false, syncUncertain := false,
+    correction := 0, source := ⟨0, 0⟩, seqId := seq, logInterval := 0 }
+
+def checksum (b : Bytes) : Nat := b.foldl (fun acc x => (acc * 31 + x.toNat) % 4294967296) 0
+
+/-- `sz ty= seq= cap= tl=`: size classes around the 16-bit messageLength limit -/
+def szOp (ws : List String) : Option String := do
+  let ty ← kvNat? ws "ty"
+  let seq ← kvNat? ws "seq"
+  let cap ← kvNat? ws "cap"
+  let lens ← (splitComma (← kv? ws "tl")).mapM String.toNat?
+  let body ← szBody ty
+  let tlvs : List Tlv := (lens.zipIdx).map fun (l, k) => ⟨3, List.replicate l (UInt8.ofNat k)⟩
+  let total := (lens.map (4 + ·)).foldl (· + ·) 0
+  match (TlvBuilder.new total).addAll tlvs with
+  | .error _ => pure "err:tlv"
+  | .ok b =>
+    let m : Message := { header := szHeader seq, body, suffix := b.build }
+    match m.serialize (List.replicate cap 0) with
+    | .error f => pure (failStr f)
+    | .ok out =>
+      let back := match Message.deserialize out with
+        | .ok m2 => if m2 = m then "eq" else "neq"
+        | .error f => failStr f
+      let n := out.length
+      let hd := hexOfBytes (out.take 40)
+      let cs := checksum out
+      pure s!"ok len={n} head={hd} sum={cs} back={back}"
+
 def stepLine (st : St) (line : String) : St × String :=
   match words line with
   | "cfg" :: ws =>
@@ -131,6 +180,7 @@ def stepLine (st : St) (line : String) : St × String :=
     | none => (st, "bad-op")
   | "srv" :: ws => (st, (srvOp st ws).getD "bad-op")
   | "de" :: ws => (st, (deOp ws).getD "bad-op")
+  | "sz" :: ws => (st, (szOp ws).getD "bad-op")
   | "scfg" :: ws =>
     match kvNat? ws "domain", (kv? ws "active").bind parseBool with
     | some d, some a => ({ st with src := { st.src with domain := d, active := a } }, "ok")
